@@ -354,6 +354,20 @@ SEEDED = [
     ("r2-C16-1", "C16", "SH4"), ("r2-C16-2", "C16", "R1c"),
     ("r2-C19-2", "C19", "K4"),
     ("r2-C20-1", "C20", "K3"),
+    # round 3
+    ("r3-C03-1", "C03", "SH3"), ("r3-C03-2", "C05", "INV"),
+    ("r3-C04-1", "C04", "SH1"),
+    ("r3-C05-1", "C05", "GO1"),
+    ("r3-C06-1", "C06", "M4"), ("r3-C06-2", "C06", "FW1"),
+    ("r3-C08-1", "C08", "CM1"), ("r3-C08-2", "C08", "PA1"),
+    ("r3-C09-1", "C09", "DV1"), ("r3-C09-2", "C09", "V2r"),
+    ("r3-C10-1", "C10", "BFS1"), ("r3-C10-2", "C10", "RF1"),
+    ("r3-C11-1", "C11", "S2"), ("r3-C11-2", "C11", "GI1"),
+    ("r3-C13-1", "C13", "HD1"),
+    ("r3-C15-2", "C15", "R1"),
+    ("r3-C16-2", "C16", "R1c"),
+    ("r3-C19-2", "C19", "K4"),
+    ("r3-C20-2", "C20", "HD2"),
 ]
 # seeded changes no static rule here decides (numerical / heuristic):
 # C14-1, C15-1, C15-2, C19-1, C20-2, r2-C12-2, r2-C14-1, r2-C15-2, r2-C19-1,
